@@ -284,3 +284,45 @@ pub fn linkburst(toks: &[&str]) -> Option<String> {
     if ok == n { drop(boss); drop(doer); } else { std::mem::forget(boss); std::mem::forget(doer); }
     Some(format!("toDoer={} of={}", ok, n))
 }
+
+/// `linkfinal <key hex32> <n> <size>`: the doer end of a real link has n responses of <size> bytes queued when the boss's `Shutdown`
+/// arrives and it shuts down with a final message (the way a doer process ends: `shutdown_with_final_message_sent_after_threads_joined`);
+/// the network reads slowly, so the sending thread has a backlog when its channel closes.  Every frame the doer put on the wire
+/// (the n responses and the final one) must have its own nonce.  Answer: `frames=<k> of=<n+1> reuse=<0|1>`.
+pub fn linkfinal(toks: &[&str]) -> Option<String> {
+    let mut t = Toks::new(toks);
+    let key = unhex(t.tok()?)?;
+    if key.len() != 16 { return None; }
+    let n = t.nat()?; let size = t.nat()?;
+    let key = *GenericArray::from_slice(&key);
+    // the boss's Shutdown frame, made by a real boss end
+    let (boss_end, mut net_b) = pair();
+    let boss: AsyncEncryptedComms<Command, Response> = AsyncEncryptedComms::new(boss_end, key, 0, 1, ("boss", "doer"));
+    let _ = boss.sender.send(Command::Shutdown);
+    let fb = read_frames(&mut net_b, 1);
+    if fb.len() != 1 { return Some("send-failed".to_string()); }
+    let (doer_end, mut net_d) = pair();
+    let doer: AsyncEncryptedComms<Response, Command> = AsyncEncryptedComms::new(doer_end, key, 1, 0, ("doer", "boss"));
+    let msg = |i: usize| Response::Error(format!("{}{}", i, "r".repeat(size + i % 3)));
+    let fin = || Response::Error("final message".repeat(3));
+    for i in 0..n { let _ = doer.sender.send(msg(i)); }
+    // deliver the Shutdown, then let the doer end shut down while the network is still not reading
+    let mut w = vec![]; w.extend_from_slice(&fb[0].len().to_le_bytes()); w.extend_from_slice(&fb[0]);
+    let _ = net_d.write_all(&w); let _ = net_d.flush();
+    let th = std::thread::spawn(move || { doer.shutdown_with_final_message_sent_after_threads_joined(fin); });
+    std::thread::sleep(std::time::Duration::from_millis(250));
+    net_d.set_read_timeout(Some(std::time::Duration::from_secs(5))).ok();
+    let fd = read_frames(&mut net_d, n + 1);
+    let _ = th.join();
+    drop(boss);
+    let mut plains: Vec<Vec<u8>> = (0..n).map(|i| bincode::serialize(&msg(i)).unwrap()).collect();
+    plains.push(bincode::serialize(&fin()).unwrap());
+    let mut reuse = false;
+    for i in 0..fd.len() {
+        for j in 0..i {
+            let m = plains[i].len().min(plains[j].len()).min(fd[i].len()).min(fd[j].len()).min(24);
+            if m >= 8 && (0..m).all(|k| fd[i][k] ^ fd[j][k] == plains[i][k] ^ plains[j][k]) { reuse = true; }
+        }
+    }
+    Some(format!("frames={} of={} reuse={}", fd.len(), n + 1, if reuse { 1 } else { 0 }))
+}
